@@ -6,8 +6,9 @@ from types_ import VEC, LET, INT_VECS, SCALARS, draw_vec, draw_scalar, repo_read
 CFGS = {"quick": ["sse2"], "thorough": ["sse2"]}   # integer vector types are plain structs in every configuration
 QUICK_SCALARS = ["i8", "u16", "i32", "u64"]
 BOUNDS = ("all lane values of every operand are unconstrained; overflow-checking (dev) profile as modelled by Kani; Sum/Product over exactly 3 elements "
-          "(unwind 5); chebyshev_distance's fixed-size iterator unwound 5; usize = 64 bit; quick tier: i8, u16, i32, u64 families in 2,3,4 dimensions, thorough: all 27 types")
-ASSUMPTIONS = ["release-profile (wrapping) overflow behaviour is not modelled by Kani and is only exercised by native replays",
+          "(unwind 5); chebyshev_distance's fixed-size iterator unwound 5; usize = 64 bit; shifts by every scalar count type (i8..u64) and by IVec/UVec on every type in every tier; quick tier: i8, u16, i32, u64 families in 2,3,4 dimensions, thorough: all 27 types")
+ASSUMPTIONS = ["release-profile (wrapping) overflow behaviour is not modelled: Kani forces overflow checks on whatever -C overflow-checks says (a release-like configuration was tried: every "
+               "wrapping harness failed on Kani's own 'attempt to add with overflow' check), so the release profile is only exercised by native replays",
                "CBMC SMT2 overflow-struct operand-order patch (DESIGN.md appendix B), checked by the concrete self-test harnesses of this property"]
 
 SHIFT_SCALARS = ["i8", "i16", "i32", "i64", "u8", "u16", "u32", "u64"]
@@ -104,7 +105,7 @@ def for_type(t, tier, full=True):
         H(f"{opn}__vs", AK, lanes_eq(f"{T} {sym} {sc}", f"a {sym} k", lambda i: f"a{i} {sym} k"))
     # ---- shifts by scalar of every integer type and by IVec/UVec
     for opn, sym in (("shl", "<<"), ("shr", ">>")):
-        for ks in (SHIFT_SCALARS if full else ["i8", "u32"]):
+        for ks in SHIFT_SCALARS:      # every count type in every tier (seed C13_r2m2: a wide count type routed through a narrowing cast)
             ok = f"(k as i128) >= 0 && (k as i128) < {bits}"
             H(f"{opn}__{ks}", [("v", "a"), ("s", "k", ks)], [f"if {ok} {{"] + lanes_eq(f"{T} {sym} {ks}", f"a {sym} k", lambda i: f"a{i} {sym} k") + ["}"],
               desc=f"{T} {sym} {ks}: for counts in range, lanes == primitive shift")
